@@ -50,6 +50,9 @@ from .changes import (
     InputFieldChangedType,
     InputFieldDefaultValueChange,
     InputFieldRemoved,
+    RootTypeAdded,
+    RootTypeChanged,
+    RootTypeRemoved,
     SchemaChange,
     SchemaChangeSeverity,
     TypeAdded,
@@ -96,6 +99,9 @@ __all__ = (
     "InputFieldChangedType",
     "InputFieldDefaultValueChange",
     "InputFieldRemoved",
+    "RootTypeAdded",
+    "RootTypeChanged",
+    "RootTypeRemoved",
     "TypeAdded",
     "TypeAddedToInterface",
     "TypeAddedToUnion",
@@ -154,6 +160,7 @@ def diff_schema(
     new_schema.validate()
 
     diffs = [
+        _diff_root_types(old_schema, new_schema),
         _find_removed_types(old_schema, new_schema),
         _find_added_types(old_schema, new_schema),
         _diff_directives(old_schema, new_schema),
@@ -168,6 +175,21 @@ def diff_schema(
     for change in itertools.chain(*diffs):
         if min_severity is None or change.severity >= min_severity:
             yield change
+
+
+def _diff_root_types(old: Schema, new: Schema) -> Iterator[SchemaChange]:
+    for operation, old_type, new_type in (
+        ("query", old.query_type, new.query_type),
+        ("mutation", old.mutation_type, new.mutation_type),
+        ("subscription", old.subscription_type, new.subscription_type),
+    ):
+        if old_type is None:
+            if new_type is not None:
+                yield RootTypeAdded(operation, new_type.name)
+        elif new_type is None:
+            yield RootTypeRemoved(operation, old_type.name)
+        elif old_type.name != new_type.name:
+            yield RootTypeChanged(operation, old_type.name, new_type.name)
 
 
 def _find_removed_types(old: Schema, new: Schema) -> Iterator[SchemaChange]:
